@@ -2,6 +2,7 @@
 package recw
 
 import (
+	"errors"
 	"runtime"
 	"sync/atomic"
 )
@@ -15,7 +16,13 @@ type Writer struct {
 	slots    [][]byte
 	Dwell    int // Gosched calls while "inside" (widens the window a missing lock would show in)
 	Lost     atomic.Int64
+	// FailEvery > 0: every n-th call reports a short write with an error (half of the line
+	// accepted) - a destination such as a size-capped or non-blocking pipe. The call still counts
+	// and its payload is still recorded: one record must remain one Write call.
+	FailEvery int
 }
+
+var errShort = errors.New("recw: short write")
 
 func New(capacity, dwell int) *Writer {
 	return &Writer{slots: make([][]byte, capacity), Dwell: dwell}
@@ -35,6 +42,9 @@ func (w *Writer) Write(p []byte) (int, error) {
 		runtime.Gosched()
 	}
 	w.inflight.Add(-1)
+	if w.FailEvery > 0 && (i+1)%int64(w.FailEvery) == 0 {
+		return len(p) / 2, errShort
+	}
 	return len(p), nil
 }
 
